@@ -105,7 +105,7 @@ def generate(ctx):
             spec = _tame(F.random_spec(rng, max_rows=5, max_cols=6, min_rows=1, min_cols=1, dtypes=_DTYPES, row_kinds=_ROWK, col_kinds=_COLK))
             lay = rng.choice(F.layouts(spec.dtypes))
             iface = rng.choice(['assign', 'assign', 'assign', 'drop', 'mask', 'astype', 'relabel', 'rename', 'insert', 'assign_bloc'])
-            case = {'kind': 'frame', 'spec': spec, 'layout': lay, 'iface': iface}
+            case = {'kind': 'frame', 'spec': spec, 'layout': lay, 'iface': iface, 'go': rng.random() < 0.3}
             nr, nc = spec.shape
             if iface in ('assign', 'drop', 'mask'):
                 route = rng.choice(['iloc', 'iloc', 'loc', 'getitem'])
@@ -250,7 +250,8 @@ def _frame_model(spec):
     return [[cs(v) for v in row] for row in spec.cells]
 
 
-def _assert_receiver(ctx, before, obj, klass):
+def _assert_receiver(ctx, before, obj, klass, out=None):
+    ctx.__dict__['_c08_last'] = (obj, out, before, klass)  # for the grow-only independence check at the end of the case
     after = canon.snap(obj)
     if after != before:
         ctx.violation('receiver_changed', detail={'before': canon.brief(before, 600), 'after': canon.brief(after, 600)}, klass=klass)
@@ -267,9 +268,43 @@ def _shares_block(lay, addressed, j):
 
 
 def _check_frame(case, ctx):
+    ctx.__dict__['_c08_last'] = None
+    _check_frame_inner(case, ctx)
+    last = ctx.__dict__.get('_c08_last')
+    if last is not None:
+        _go_independence(ctx, *last)
+
+
+def _go_independence(ctx, obj, out, before, klass):
+    """a functional update of a grow-only frame returns another grow-only frame: growing either must not show in the other."""
+    import static_frame as sf
+    if not (isinstance(obj, sf.FrameGO) and isinstance(out, sf.FrameGO)) or out is obj:
+        return
+    ctx.tally('go_independence', 'checked')
+    out_before = canon.snap(out)
+    try:
+        out['__c08_result_growth__'] = np.arange(len(out.index))
+    except Exception as e:
+        ctx.tally('go_independence', 'growth_raised:' + type(e).__name__)
+        return
+    if canon.snap(obj) != before or len(obj.columns) != obj.shape[1]:
+        ctx.violation('receiver_changed_by_growth_of_result', detail={'columns': len(obj.columns), 'shape': obj.shape,
+                                                                       'after': canon.brief(canon.snap(obj), 500)}, klass=klass)
+        return
+    try:
+        obj['__c08_receiver_growth__'] = np.arange(len(obj.index))
+    except Exception as e:
+        ctx.tally('go_independence', 'growth_raised:' + type(e).__name__)
+        return
+    now = canon.snap(out)
+    if len(out.columns) != out.shape[1] or len(now['columns']['labels']) != len(out_before['columns']['labels']) + 1:
+        ctx.violation('result_changed_by_growth_of_receiver', detail={'columns': len(out.columns), 'shape': out.shape}, klass=klass)
+
+
+def _check_frame_inner(case, ctx):
     import static_frame as sf
     spec, lay, iface = case['spec'], case['layout'], case['iface']
-    f = F.build_frame(spec, lay)
+    f = F.build_frame(spec, lay, cls=sf.FrameGO if case.get('go') else None)
     before = canon.snap(f)
     nr, nc = spec.shape
     klass = _base_klass(case)
@@ -290,7 +325,7 @@ def _check_frame(case, ctx):
         key = _key(case, f, case['rowkey'], case['colkey'])
         if iface == 'drop':
             out, exc = _call(lambda: _sel(f.drop, case)[key])
-            ok_r = _assert_receiver(ctx, before, f, klass)
+            ok_r = _assert_receiver(ctx, before, f, klass, out)
             if exc is not None:
                 ctx.violation('valid_update_raised', detail={'exception': type(exc).__name__, 'message': str(exc)[:300]}, klass=dict(klass, exception=type(exc).__name__))
                 return
@@ -304,7 +339,7 @@ def _check_frame(case, ctx):
             return
         if iface == 'mask':
             out, exc = _call(lambda: _sel(f.mask, case)[key])
-            _assert_receiver(ctx, before, f, klass)
+            _assert_receiver(ctx, before, f, klass, out)
             if exc is not None:
                 ctx.violation('valid_update_raised', detail={'exception': type(exc).__name__, 'message': str(exc)[:300]}, klass=dict(klass, exception=type(exc).__name__))
                 return
@@ -327,7 +362,7 @@ def _check_frame(case, ctx):
         return _check_relabel(case, ctx, f, before, klass)
     if iface == 'rename':
         out = f.rename(case['name'])
-        _assert_receiver(ctx, before, f, klass)
+        _assert_receiver(ctx, before, f, klass, out)
         got = canon.snap(out)
         exp = dict(before, name=cs(case['name']))
         if got != exp:
@@ -489,7 +524,7 @@ def _check_frame_assign(case, ctx, f, before, R, C, rres, cres, key, klass):
             out, exc = _call(lambda: iface_obj[key](value, fill_value=fill))
         else:
             out, exc = _call(lambda: iface_obj[key](value))
-    _assert_receiver(ctx, before, f, klass)
+    _assert_receiver(ctx, before, f, klass, out)
     ctx.tally('assign_value_shape', vs)
     if exc is not None:
         if not R or not C:
@@ -598,7 +633,7 @@ def _check_assign_bloc(case, ctx, f, before, klass):
         for (rl, cl), x in items:
             exp[(pos_r[cs(rl)], pos_c[cs(cl)])] = cs(x)
     out, exc = _call(lambda: f.assign.bloc[m](value))
-    _assert_receiver(ctx, before, f, klass)
+    _assert_receiver(ctx, before, f, klass, out)
     if exc is not None:
         ctx.violation('valid_update_raised', detail={'exception': type(exc).__name__, 'message': str(exc)[:300]}, klass=dict(klass, exception=type(exc).__name__))
         return
@@ -653,7 +688,7 @@ def _check_astype(case, ctx, f, before, klass):
         labs = [spec.cols[c] for c in cols]
         k = labs[0] if case['single'] else labs
         out, exc = _call(lambda: f.astype[k](str if dt == 'str' else dt))
-    _assert_receiver(ctx, before, f, klass)
+    _assert_receiver(ctx, before, f, klass, out)
     if ref_exc is not None:
         if exc is None:
             ctx.violation('astype_invalid_cast_returned_data', detail={'reference_exception': type(ref_exc).__name__}, klass=klass)
@@ -712,7 +747,7 @@ def _check_relabel(case, ctx, f, before, klass):
         else:
             exp_columns = new
     out, exc = _call(lambda: f.relabel(**kw))
-    _assert_receiver(ctx, before, f, klass)
+    _assert_receiver(ctx, before, f, klass, out)
     if exc is not None:
         ctx.violation('valid_update_raised', detail={'exception': type(exc).__name__, 'message': str(exc)[:300]}, klass=dict(klass, exception=type(exc).__name__))
         return
@@ -736,7 +771,7 @@ def _check_insert(case, ctx, f, before, klass):
         container = sf.Frame.from_items(((name, V.to_array(vals, dt)) for name, dt, vals in new), index=f.index)
     fn = f.insert_after if after else f.insert_before
     out, exc = _call(lambda: fn(spec.cols[at], container))
-    _assert_receiver(ctx, before, f, klass)
+    _assert_receiver(ctx, before, f, klass, out)
     if exc is not None:
         ctx.violation('valid_update_raised', detail={'exception': type(exc).__name__, 'message': str(exc)[:300]}, klass=dict(klass, exception=type(exc).__name__))
         return
@@ -779,7 +814,7 @@ def _check_series(case, ctx):
         key = K.realize(case['key'])
         if iface == 'drop':
             out, exc = _call(lambda: _sel(s.drop, case)[key])
-            _assert_receiver(ctx, before, s, klass)
+            _assert_receiver(ctx, before, s, klass, out)
             if exc is not None:
                 ctx.violation('valid_update_raised', detail={'exception': type(exc).__name__, 'message': str(exc)[:300]}, klass=dict(klass, exception=type(exc).__name__))
                 return
@@ -792,7 +827,7 @@ def _check_series(case, ctx):
             return
         if iface == 'mask':
             out, exc = _call(lambda: _sel(s.mask, case)[key])
-            _assert_receiver(ctx, before, s, klass)
+            _assert_receiver(ctx, before, s, klass, out)
             if exc is not None:
                 ctx.violation('valid_update_raised', detail={'exception': type(exc).__name__, 'message': str(exc)[:300]}, klass=dict(klass, exception=type(exc).__name__))
                 return
@@ -809,10 +844,17 @@ def _check_series(case, ctx):
         vs = case['vshape']
         exp = {}
         dt = rng.choice(_VAL_DTYPES)
+        same_kind_other_unit = spec.dtype.startswith('M8') and rng.random() < 0.6
+        if same_kind_other_unit:
+            # a value of the same kind in a finer (or the same) unit: the addressed cells must hold exactly the instants supplied
+            # (not ns: a datetime64[ns] value that meets a non-datetime fill goes through NumPy's object conversion, which yields an
+            # int -- C07's recorded finding, not an update defect)
+            dt = rng.choice(['M8[s]', 'M8[D]', 'M8[s]'])
+            ctx.tally('assign_value_kind', 'datetime_other_unit')
         fill = case['fill']
         iface_obj = _sel(s.assign, case)
         if vs == 'scalar':
-            v = _val(rng)
+            v = _val(rng, dt if same_kind_other_unit else None)
             exp = {p: cs(v) for p in P}
             out, exc = _call(lambda: iface_obj[key](v))
         elif vs == 'apply_const':
@@ -837,7 +879,7 @@ def _check_series(case, ctx):
             value = sf.Series(V.to_array([vals[p] for p in order], dt), index=K._index_for(labs))
             exp = {p: (cs(vals[p]) if p in vals else None) for p in P}
             out, exc = _call(lambda: iface_obj[key](value, fill_value=fill))
-        _assert_receiver(ctx, before, s, klass)
+        _assert_receiver(ctx, before, s, klass, out)
         ctx.tally('assign_value_shape', 'series.' + vs)
         if exc is not None:
             ctx.violation('valid_update_raised', detail={'exception': type(exc).__name__, 'message': str(exc)[:300]},
@@ -875,7 +917,7 @@ def _check_series(case, ctx):
         except Exception as e:
             ref, ref_exc = None, e
         out, exc = _call(lambda: s.astype(str if dt == 'str' else dt))
-        _assert_receiver(ctx, before, s, klass)
+        _assert_receiver(ctx, before, s, klass, out)
         if ref_exc is not None:
             if exc is None:
                 ctx.violation('astype_invalid_cast_returned_data', detail={'reference_exception': type(ref_exc).__name__}, klass=klass)
@@ -902,7 +944,7 @@ def _check_series(case, ctx):
             new = [f'L{i}' for i in range(n)]
             arg = new
         out, exc = _call(lambda: s.relabel(arg))
-        _assert_receiver(ctx, before, s, klass)
+        _assert_receiver(ctx, before, s, klass, out)
         if exc is not None:
             ctx.violation('valid_update_raised', detail={'exception': type(exc).__name__, 'message': str(exc)[:300]}, klass=dict(klass, exception=type(exc).__name__))
             return
@@ -912,7 +954,7 @@ def _check_series(case, ctx):
         return
     if iface == 'rename':
         out = s.rename(case['name'])
-        _assert_receiver(ctx, before, s, klass)
+        _assert_receiver(ctx, before, s, klass, out)
         got = canon.snap(out)
         if got != dict(before, name=cs(case['name'])):
             ctx.violation('rename_mismatch', detail={'got': canon.brief(got, 600)}, klass=klass)
